@@ -696,10 +696,11 @@ inline std::vector<uint64_t> shrink(const Property& prop, std::vector<uint64_t> 
                 }
             }
         }
+        auto exhausted = [&]() { return attempts >= max_attempts || now_s() - t0 > max_seconds; };
         // 2. delete spans
-        for (size_t span : {64u, 16u, 8u, 4u, 2u, 1u}) {
+        for (size_t span : {4096u, 512u, 64u, 16u, 8u, 4u, 2u, 1u}) {
             if (span > seq.size()) continue;
-            for (size_t i = 0; i + span <= seq.size();) {
+            for (size_t i = 0; i + span <= seq.size() && !exhausted();) {
                 std::vector<uint64_t> cand(seq.begin(), seq.begin() + i);
                 cand.insert(cand.end(), seq.begin() + i + span, seq.end());
                 if (still_fails(cand)) {
@@ -712,7 +713,7 @@ inline std::vector<uint64_t> shrink(const Property& prop, std::vector<uint64_t> 
             }
         }
         // 3. minimise values
-        for (size_t i = 0; i < seq.size() && attempts < max_attempts; ++i) {
+        for (size_t i = 0; i < seq.size() && !exhausted(); ++i) {
             if (seq[i] == 0) continue;
             std::vector<uint64_t> cand = seq;
             cand[i] = 0;
